@@ -52,8 +52,8 @@ PROPS = {
         hosts={'src/xlsx/mod.rs': ['c01_xlsx.rs'], 'src/lib.rs': ['c05_lib.rs']},
         select=[r'^c01_', r'^c05_[qt]_from_sparse'],
         functions=['xlsx::get_row_and_optional_column', 'xlsx::get_row', 'xlsx::get_row_column', 'Range::from_sparse'],
-        bounds={'cell names': 'letters 0..=3 x digits 1..=7 (9 thorough) shapes listed, every byte symbolic within its class, both letter cases',
-                'arbitrary bytes': 'all byte strings of length 2..=5 (6..=8 thorough): accepted iff [A-Za-z]*[0-9]+ with non-zero row, value = reference', 
+        bounds={'cell names': 'shapes (letters, digits) in {(0,1),(1,1),(1,3)} quick + {(2,2),(3,1)} thorough, every byte symbolic within its class, both letter cases; longer shapes (c01_x_*) exceed 900 s since the decoder uses checked arithmetic',
+                'arbitrary bytes': 'all byte strings of length 2..=5 (6 thorough; 7 and 8 not admitted): accepted iff [A-Za-z]*[0-9]+ with non-zero row, value = reference', 
                 'from_sparse': '0..=3 cells (4 thorough), bounding box <= 3x3, positions anywhere in u32'},
         outside=['implicit row/column cursor of XlsxCellReader::next_cell', '<dimension> handling, shared-string table, part-name case, relationship targets, namespace prefixes, zip compression (quick_xml/zip-typed code)',
                  'get_dimension (split/collect over symbolic bytes exceeds 20 GB in every shape tried)', 'read_v type dispatch (BytesStart attribute parsing + atoi_simd + float parsing): not admitted', 'cell names with more than 9 digits (pow overflow: C06)'],
